@@ -1,5 +1,5 @@
 #!/venv/bin/python
-"""Freeze instance-count floors from the evidence of a clean run: at least half of the measured obligations, and at
+"""Freeze instance-count floors from the evidence of a clean run: at least a quarter of the measured obligations, and at
 least one instance of every rule that had instances (no rule may become vacuous).  Analysing less than that is reported
 as ANALYSIS-ERROR, never as a pass.  (Tighter per-rule floors made behaviour-preserving refactorings that merge
 duplicated code - and so legitimately shrink the instance count - fail the run; see DESIGN 8.)"""
@@ -9,7 +9,7 @@ for f in sorted(glob.glob("/verif/evidence/C*.json")):
     d = json.load(open(f))
     c = d["coverage"]
     floors[d["property_id"]] = {
-        "obligations": max(1, math.floor(c["obligations"] * 0.5)),
+        "obligations": max(3, math.floor(c["obligations"] * 0.25)),
         "rules": {r: 1 for r, v in c["by_rule"].items() if sum(v.values()) >= 1 and r != "UNRECOGNISED"},
         "measured": c["obligations"],
     }
